@@ -30,11 +30,14 @@ def _msg_of(kind, dev):
     from mc import lib
 
     extra = None
+    childless = kind.endswith("~0")  # a vector message without child elements (a state-only update, an empty definition)
+    if childless:
+        kind = kind[:-2]
     if "+" in kind:
         # a message that arrives over the wire with an additional, unknown attribute named like an internal flag
         kind, extra = kind.split("+", 1)
     k = G.KINDS[kind]
-    d = G.skeleton(kind, (), 1 if k.child else 0)
+    d = G.skeleton(kind, (), 1 if k.child and not childless else 0)
     attrs = tuple((n, v) for n, v in d[1] if n != "device")
     names = [n for n, _ in k.req + k.opt]
     if "device" in names and dev is not None:
@@ -54,6 +57,24 @@ def _msg_of(kind, dev):
         i = data.index("<" + kind) + len(kind) + 1
         data = data[:i] + CRAFTED[extra] + data[i:]
     return M.IndiMessage.from_string(data)
+
+
+def base_kind(kind):
+    return kind.split("+")[0].split("~")[0]
+
+
+_DEV_CLASSES = {}
+_ENABLE_CACHE = {}
+
+
+def enable_msg(dev, value):
+    """enableBLOB as it comes out of the parser (cached: nothing mutates a message)"""
+    key = (dev, value)
+    if key not in _ENABLE_CACHE:
+        from indi.message import EnableBLOB, IndiMessage
+
+        _ENABLE_CACHE[key] = IndiMessage.from_string(EnableBLOB(device=dev, value=value).to_string())
+    return _ENABLE_CACHE[key]
 
 
 class Sys:
@@ -91,7 +112,9 @@ class Sys:
         self.devices = []
         for i, name in enumerate(DEVNAMES):
             spec = dict(name=name, groups=[dict(attr="g", name="G", vectors=[dict(attr="t", kind="text", name="T", elements=[dict(attr="a", name="a", default="x")])])])
-            cls, _ = D.build_class(spec)
+            if name not in _DEV_CLASSES:
+                _DEV_CLASSES[name] = D.build_class(spec)[0]
+            cls = _DEV_CLASSES[name]  # one generated class per device name, a fresh instance per execution
             dev = cls()  # router attached on register event
             dev.idx = i
 
@@ -123,10 +146,7 @@ class Sys:
             elif op == "unregcli":
                 self.router.unregister_client(self.clients[ev[1]])
             elif op == "enable":
-                from indi.message import IndiMessage
-
-                m = IndiMessage.from_string(EnableBLOB(device=ev[2], value=ev[3]).to_string())
-                self.router.process_message(m, sender=self.clients[ev[1]])
+                self.router.process_message(enable_msg(ev[2], ev[3]), sender=self.clients[ev[1]])
             elif op == "send":
                 _, kind, dev, sender = ev
                 m = msg_of(kind, dev)
@@ -209,7 +229,7 @@ class Model:
             self.pol[c][dev] = p
             return [d for d in self.devices if self.accepts(d, dev)], []
         _, kind, dev, sender = ev
-        kind = kind.split("+")[0]  # crafted attributes do not change what a message is
+        kind = base_kind(kind)  # crafted attributes / missing children do not change what a message is
         k = G.KINDS[kind]
         to_dev, to_cli = [], []
         if k.origin in ("client", "both"):
@@ -250,6 +270,35 @@ def send_events(model, kinds):
                 yield ("send", kind, dev, s)
 
 
+def prime_sends(model):
+    """traffic that a real deployment has seen before any later event: a few messages of both classes to both a
+    named and no device, so that whatever a router remembers about past traffic (recipient caches, counters) is
+    filled before the next registration / policy change.  Results are not judged here."""
+    out = []
+    for dev in ("A", None):
+        for kind in ("setTextVector", "setBLOBVector", "getProperties"):
+            if msg_of(kind, dev) is not None:
+                out.append(("send", kind, dev, None))
+    for c in model.clients[:1]:
+        out.append(("send", "getProperties", "A", ("c", c)))
+        out.append(("send", "newTextVector", "B", ("c", c)))
+    for d in model.devices[:1]:
+        out.append(("send", "setBLOBVector", "B", ("d", d)))
+    return out
+
+
+def primed_path(path):
+    """the same history with prime_sends() after every event"""
+    out, m = [], Model()
+    for ev in prime_sends(m):
+        out.append(ev)
+    for ev in path:
+        out.append(ev)
+        m.step(ev)
+        out.extend(prime_sends(m))
+    return out
+
+
 def build(path, nclients):
     s = Sys(nclients)
     m = Model()
@@ -259,7 +308,7 @@ def build(path, nclients):
     return s, m
 
 
-def explore(nclients, kinds, check, shard_idx=0, nshards=1):
+def explore(nclients, kinds, check, shard_idx=0, nshards=1, primed=False):
     """BFS to fixpoint over structural events; send events are self-loops checked in every state
     whose ordinal % nshards == shard_idx.  check(model_before, ev, deliveries, exc, expected) -> fails"""
     s0, m0 = build([], nclients)
@@ -322,6 +371,43 @@ def explore(nclients, kinds, check, shard_idx=0, nshards=1):
                         stats["sends_touching_hidden_state"] = stats.get("sends_touching_hidden_state", 0) + 1
                 if fails:
                     keep(fails, path + [ev])
+        if mine and primed:
+            # the same state reached by a history WITH traffic between the events (sends are only self-loops of the
+            # registration / policy state; a router that remembers anything about past traffic may answer differently)
+            ppath = primed_path(path)
+            sysp, _ = build(ppath, nclients)
+            if sysp.canon()[:3] == st[:3]:
+                for ev in send_events(model, kinds):
+                    mm = model.copy()
+                    exp = mm.step(ev)
+                    got, exc = sysp.apply(ev)
+                    stats["transitions"] += 1
+                    stats["sends"] += 1
+                    stats["primed_sends"] = stats.get("primed_sends", 0) + 1
+                    fails = check(model, ev, got, exc, exp)
+                    if sysp.canon()[:3] != st[:3]:
+                        fails = fails + [("send-changed-router-state", "kind=%s" % ev[1], "registration or policy state changed by a send: %r" % (ev,))]
+                        sysp, _ = build(ppath, nclients)
+                    if fails:
+                        keep(fails, ppath + [ev])
+                for ev in structural_events(model, nclients):
+                    s2, _ = build(ppath, nclients)
+                    mm = model.copy()
+                    exp = mm.step(ev)
+                    got, exc = s2.apply(ev)
+                    stats["transitions"] += 1
+                    fails = check(model, ev, got, exc, exp)
+                    c = s2.canon()
+                    want = (tuple(sorted(mm.clients)), tuple(sorted(mm.devices)))
+                    if not fails and (c[0], c[1]) != want:
+                        fails = [("registration-state", "op=%s" % ev[0], "router has clients/devices %r, model %r" % ((c[0], c[1]), want))]
+                    polwant = tuple(sorted((ci, tuple(sorted((repr(k), p) for k, p in pm.items()))) for ci, pm in mm.pol.items()))
+                    if not fails and c[2] != polwant:
+                        fails = [("policy-state", "op=%s" % ev[0], "router blob_routing %r, model %r" % (c[2], polwant))]
+                    if fails:
+                        keep(fails, ppath + [ev])
+            else:
+                keep([("send-changed-router-state", "primed-history", "registration or policy state differs after the same events with traffic in between")], ppath)
         for ev in structural_events(model, nclients):
             s2, m2 = build(path, nclients)
             mm = m2
